@@ -107,6 +107,11 @@ inductive SeekFrom where
 /-- `UNIX_EPOCH`, `Duration::from_secs`, `SystemTime + Duration` (nanoseconds) -/
 def UNIX_EPOCH : SystemTime := 0
 def duration_from_secs (s : Nat) : Duration := s * 1000000000
+/-- `FileSetBloom` idealised as the exact set (a Bloom filter has no false negatives; a false positive only sends
+    `plan_deletions` to the exact test it performs anyway) -/
+def bloom_new (_n : Nat) : HashSet Path := []
+/-- `Iterator::flatten` over `Result` items: the `Ok` ones -/
+def flatten (l : List α) : List α := l
 /-- the text of an error message (never inspected by the program) -/
 def opaqueMsg : Str := []
 def as_millis (d : Duration) : Nat := d / 1000000
@@ -201,6 +206,19 @@ def extension (p : Path) : Option Str :=
 def join (p : Path) (n : Str) : Path := if p.isEmpty then n else p ++ '/' :: n
 /-- `Option::and_then` -/
 def and_then (o : Option α) (f : α → Option β) : Option β := o.bind f
+
+/-- `to_string()` of a text, or of an error (the message is not modelled) -/
+class ToStringRs (γ : Type) where
+  to_string : γ → Str
+export ToStringRs (to_string)
+instance : ToStringRs Str := ⟨id⟩
+instance : ToStringRs Err := ⟨fun _ => []⟩
+/-- `Path::strip_prefix(base)`: the rest after `base` and the separator; `Err` when `base` is not a whole-component prefix
+    (path texts without trailing separators; `base` itself strips to the empty path) -/
+def strip_prefix (p base : Path) : Except Err Path :=
+  if p == base then .ok []
+  else if base.isEmpty then .ok p
+  else if (base ++ ['/']).isPrefixOf p then .ok (p.drop (base.length + 1)) else .error .other
 
 /-- `as_str()` -/
 class AsStr (γ : Type) where
